@@ -335,31 +335,31 @@ func c11ScanLists(p *Prog, fn *ssa.Function, tf *Termer, lk *c11Lookup, l *Loop,
 			}
 		}
 	}
-	absent := func(b *ssa.BasicBlock) bool {
+	absent := func(gs []Guard) bool {
 		if lk == nil {
 			return false
 		}
-		for _, g := range Guards(b) {
+		for _, g := range gs {
 			if lk.absent(g) {
 				return true
 			}
 		}
 		return false
 	}
-	// the list that was filled is what is returned
-	for _, b := range fn.Blocks {
-		ret, ok := b.Instrs[len(b.Instrs)-1].(*ssa.Return)
-		if !ok || len(ret.Results) == 0 || absent(b) {
+	// the list that was filled is what is returned (results: robust_c11.go, c11Results)
+	for _, res := range c11Results(fn, 0) {
+		if absent(res.conds) {
 			continue
 		}
 		for _, c := range carriers {
-			if !c11FlowsFrom(ret.Results[0], c) {
-				return "the list the links are collected in is not what is returned at " + p.Pos(ret.Pos()), nil
+			if !c11FlowsFrom(res.v, c) {
+				return "the list the links are collected in is not what is returned at " + p.Pos(res.ret.Pos()), nil
 			}
 		}
 	}
+	resTarget, resEdge := c11ResultTargets(absent)
 	w := FindPath(p, PathQuery{Fn: fn, Explored: explored,
-		Target: func(in ssa.Instruction) bool { return IsReturn(in) && !absent(in.Block()) },
+		Target: resTarget, TargetEdge: resEdge,
 		AvoidEdge: func(from, to *ssa.BasicBlock) bool {
 			if from == test && !l.Blocks[to] {
 				return true
@@ -652,7 +652,9 @@ func (r *Run) c11OrdinaryScans() {
 		if !ok || len(from.Succs) != 2 || from.Succs[0] == from.Succs[1] {
 			return false
 		}
-		return GuardNilness(Guard{iff.Cond, from.Succs[0] == to, from}, func(v ssa.Value) bool { return ends.classOf(v) != 0 }) == 1
+		return c11GuardImplies(Guard{iff.Cond, from.Succs[0] == to, from}, func(g Guard) bool {
+			return GuardNilness(g, func(v ssa.Value) bool { return ends.classOf(v) != 0 }) == 1
+		})
 	}
 
 	type need struct {
@@ -941,6 +943,15 @@ func (c *c11Ctl) directedFact(g Guard) (val, ok bool) {
 
 // contradicts: the branch outcome g cannot be taken in case cs.
 func (c *c11Ctl) contradicts(g Guard, cs c11CtlCase) bool {
+	// a branch on a short-circuit condition kept in a boolean (the case of a tagless switch): excluded when every way
+	// of giving the boolean that value is (robust_c11.go, c11GuardCases)
+	if _, isPhi := g.Cond.(*ssa.Phi); isPhi {
+		return c11GuardImplies(g, func(x Guard) bool { return c.contradicts1(x, cs) })
+	}
+	return c.contradicts1(g, cs)
+}
+
+func (c *c11Ctl) contradicts1(g Guard, cs c11CtlCase) bool {
 	if d, ok := c.directedFact(g); ok {
 		return d != cs.directed
 	}
